@@ -112,7 +112,11 @@ Fixpoint final_en (en : bool) (s : list sym) : bool :=
 
 (* ---------------- wire ---------------- *)
 (* input  = (en0 (op ...))   op = (0 #bytes) | (1) | (2 b)
-   observation = ((msg ...) (n ...)) *)
+   observation = ((msg ...) (n ...))
+   [model_ref]/[spec_ref] are the wire functions written with the definitions above;
+   the driver runs [model]/[spec] (end of file), the same functions written with
+   tail-recursive, linear-time primitives so that streams with lines of 1 MiB and
+   more can be judged (C17/Proofs.v: model = model_ref, spec = spec_ref). *)
 Definition dec_op (s : sx) : op :=
   match sx_z (sx_nth s 0) with
   | 0%Z => W (sx_b (sx_nth s 1))
@@ -120,14 +124,106 @@ Definition dec_op (s : sx) : op :=
   | _ => En (sx_bool (sx_nth s 1))
   end.
 Definition dec_case (i : sx) : bool * list op := (sx_bool (sx_nth i 0), map dec_op (sx_l (sx_nth i 1))).
-Definition model (i : sx) : sx :=
+Definition model_ref (i : sx) : sx :=
   let '(en, ops) := dec_case i in
   SL [of_blist (messages en ops); SL (map of_nat (returns en ops))].
 (* the property's oracle, independent of the model: messages = lines of the
    flattened stream; every Write returned len(p) *)
 Definition write_lens (ops : list op) : list nat :=
   concat (map (fun o => match o with W c => [length c] | _ => [] end) ops).
-Definition spec (i o : sx) : bool :=
+Definition spec_ref (i o : sx) : bool :=
   let '(en, ops) := dec_case i in
   sx_eqb (sx_nth o 0) (of_blist (lines en [] (flatten ops))) &&
   sx_eqb (sx_nth o 1) (SL (map of_nat (write_lens ops))).
+
+(* ---------------- the same, executable on very long lines ----------------
+   The definitions above are the reference (they follow the Go text / define the
+   property).  Extracted as they stand they recurse as deep as a line is long
+   ([++], [firstn], [length], [Z.of_nat], [map B]) and [lines] is quadratic in the
+   line length ([cur ++ [b]]), so a 70 KiB line takes minutes and a 1 MiB line
+   overflows the stack.  Below: the same functions on accumulators.  Proofs.v
+   proves them equal to the reference, for all inputs. *)
+Definition app_tr {A} (a b : list A) : list A := rev_append (rev_append a []) b.
+Fixpoint len_z (acc : Z) (l : bytes) : Z :=
+  match l with [] => acc | _ :: r => len_z (Z.succ acc) r end.
+Fixpoint len_n (acc : nat) (l : bytes) : nat :=
+  match l with [] => acc | _ :: r => len_n (S acc) r end.
+
+(* idx := IndexByte(line, '\n'); line[:idx], line[idx+1:] in one pass *)
+Fixpoint split_nl (racc : bytes) (bs : bytes) : option (bytes * bytes) :=
+  match bs with
+  | [] => None
+  | b :: r => if Byte.eqb b nl then Some (rev_append racc [], r) else split_nl (b :: racc) r
+  end.
+
+Definition write_line_f (en : bool) (bf line : bytes) : bytes * list bytes * bytes :=
+  match split_nl [] line with
+  | None => (app_tr bf line, [], [])
+  | Some (l, rem) =>
+      if is_nil bf then (bf, log en l, rem)
+      else let '(bf', ms) := flush en true (app_tr bf l) in (bf', ms, rem)
+  end.
+
+Fixpoint write_loop_f (fuel : nat) (en : bool) (bf bs : bytes) (racc : list bytes) : bytes * list bytes :=
+  match fuel with
+  | 0 => (bf, rev_append racc [])
+  | S f =>
+      match bs with
+      | [] => (bf, rev_append racc [])
+      | _ => let '(bf1, ms, rem) := write_line_f en bf bs in
+             write_loop_f f en bf1 rem (rev_append ms racc)
+      end
+  end.
+
+Definition step_f (s : st) (o : op) : st * list bytes * option Z :=
+  match o with
+  | W c =>
+      if enabled s then
+        let '(bf, ms) := write_loop_f (S (len_n 0 c)) true (buff s) c [] in
+        ({| enabled := true; buff := bf |}, ms, Some (len_z 0 c))
+      else (s, [], Some (len_z 0 c))
+  | S_ => let '(bf, ms) := flush (enabled s) false (buff s) in
+          ({| enabled := enabled s; buff := bf |}, ms, None)
+  | En b => ({| enabled := b; buff := buff s |}, [], None)
+  end.
+
+Fixpoint run_f (s : st) (ops : list op) : st * list bytes * list Z :=
+  match ops with
+  | [] => (s, [], [])
+  | o :: r =>
+      let '(s1, ms, n) := step_f s o in
+      let '(s2, ms', ns) := run_f s1 r in
+      (s2, app_tr ms ms', match n with Some k => k :: ns | None => ns end)
+  end.
+
+Definition model (i : sx) : sx :=
+  let '(en, ops) := dec_case i in
+  let '(_, ms, ns) := run_f (init en) ops in
+  SL [of_blist ms; SL (map SZ ns)].
+
+(* [lines] with the current line and the output kept in reverse *)
+Fixpoint scan_bytes (rcur : bytes) (acc : list bytes) (c : bytes) : bytes * list bytes :=
+  match c with
+  | [] => (rcur, acc)
+  | b :: r => if Byte.eqb b nl then scan_bytes [] (rev_append rcur [] :: acc) r
+              else scan_bytes (b :: rcur) acc r
+  end.
+Fixpoint scan_ops (en : bool) (rcur : bytes) (acc : list bytes) (ops : list op) : list bytes :=
+  match ops with
+  | [] => rev_append acc []
+  | W c :: r =>
+      if en then let '(rc, a) := scan_bytes rcur acc c in scan_ops en rc a r
+      else scan_ops en rcur acc r
+  | S_ :: r =>
+      if en then (if is_nil rcur then scan_ops en [] acc r
+                  else scan_ops en [] (rev_append rcur [] :: acc) r)
+      else scan_ops en [] acc r
+  | En b :: r => scan_ops b rcur acc r
+  end.
+Definition write_lens_z (ops : list op) : list Z :=
+  concat (map (fun o => match o with W c => [len_z 0 c] | _ => [] end) ops).
+
+Definition spec (i o : sx) : bool :=
+  let '(en, ops) := dec_case i in
+  sx_eqb (sx_nth o 0) (of_blist (scan_ops en [] [] ops)) &&
+  sx_eqb (sx_nth o 1) (SL (map SZ (write_lens_z ops))).
